@@ -708,3 +708,102 @@ Definition transitb (sp : oracle) (c : compiled) (t : cni) : bool :=
                     | Some p => forallb (is_routerb c) (removelast p)
                     | None => false
                     end) (c_rts c).
+
+(* ------------------------------------------------------------------ C03 on the model: source routes *)
+(* consuming a route word: each router takes clog2(#outputs) bits, least significant first *)
+Fixpoint src_walk (fuel : nat) (c : compiled) (w : Z) (u : string) : list string * Z :=
+  match fuel with
+  | O => ([u], w)
+  | S f =>
+      match find_crt c u with
+      | None => ([u], w)
+      | Some r =>
+          let b := clog2 (Z.of_nat (length (cr_out r))) in
+          match nth_error (cr_out r) (Z.to_nat (w mod 2 ^ b)) with
+          | Some (Some l) => let '(vs, rest) := src_walk f c (w / 2 ^ b) (snd l) in (u :: vs, rest)
+          | _ => ([u], w)
+          end
+      end
+  end.
+
+Lemma word_peel p b w : 0 <= b -> 0 <= p < 2 ^ b -> (p + 2 ^ b * w) mod 2 ^ b = p /\ (p + 2 ^ b * w) / 2 ^ b = w.
+Proof.
+  intros Hb Hp. assert (0 < 2 ^ b) by (apply Z.pow_pos_nonneg; lia).
+  rewrite (Z.mul_comm (2 ^ b) w). split.
+  - rewrite Z_mod_plus_full. apply Z.mod_small. exact Hp.
+  - rewrite Z_div_plus_full by lia. rewrite Z.div_small by exact Hp. lia.
+Qed.
+
+Lemma slot_index_lt l slots k : slot_index l slots = Some k -> (k < length slots)%nat.
+Proof. intros H. destruct (slot_index_nth _ _ _ H) as (l' & Hn & _). apply nth_error_Some. congruence. Qed.
+
+(* the word rendered for a path steers along exactly that path, consuming every bit *)
+Theorem word_follows_path c : forall path ps,
+  ports_along c path = Ok ps -> path <> [] ->
+  src_walk (length ps) c (word_value ps) (hd "" path) = (path, 0).
+Proof.
+  induction path as [|a tl IH]; intros ps H Hne; [congruence|].
+  destruct tl as [|b tl'].
+  - cbn in H. inversion H; subst. reflexivity.
+  - cbn [ports_along] in H. destruct (find_crt c a) as [r|] eqn:Er; [|discriminate].
+    destruct (out_index r (a, b)) as [k|] eqn:Ek; [|discriminate]. inv_bind H. inversion H; subst ps; clear H.
+    cbn [length word_value hd src_walk]. rewrite Er.
+    set (bw := clog2 (Z.of_nat (length (cr_out r)))).
+    unfold out_index in Ek. pose proof (slot_index_lt _ _ _ Ek) as Hlt.
+    destruct (slot_index_nth _ _ _ Ek) as (l' & Hn & Hl). apply link_eqb_eq in Hl. subst l'.
+    assert (Hb : 0 <= bw) by apply clog2_nonneg.
+    assert (Hk : 0 <= Z.of_nat k < 2 ^ bw).
+    { split; [lia|]. pose proof (clog2_spec (Z.of_nat (length (cr_out r))) ltac:(lia)). fold bw in H. lia. }
+    destruct (word_peel (Z.of_nat k) bw (word_value a0) Hb Hk) as (Hm & Hd).
+    rewrite Hm, Hd, Nat2Z.id, Hn. cbn [snd].
+    specialize (IH a0 E ltac:(discriminate)). cbn [hd] in IH. rewrite IH. reflexivity.
+Qed.
+
+(* the word fits the bits its hops take *)
+Lemma word_value_bound c : forall path ps, ports_along c path = Ok ps ->
+  0 <= word_value ps < 2 ^ (fold_left (fun acc p => acc + snd p) ps 0).
+Proof.
+  assert (G : forall ps acc, 0 <= acc -> Forall (fun p => 0 <= snd p /\ 0 <= fst p < 2 ^ snd p) ps ->
+            0 <= word_value ps /\ 2 ^ acc * (word_value ps + 1) <= 2 ^ (fold_left (fun acc p => acc + snd p) ps acc)).
+  { induction ps as [|[p b] ps IH]; intros acc Ha Hf; cbn [word_value fold_left].
+    - split; [lia|]. rewrite Z.mul_1_r. lia.
+    - inversion Hf as [|? ? (Hb & Hp) Hf']; subst. cbn [fst snd] in *.
+      destruct (IH (acc + b) ltac:(lia) Hf') as (W0 & W1).
+      assert (0 < 2 ^ b) by (apply Z.pow_pos_nonneg; lia). assert (0 < 2 ^ acc) by (apply Z.pow_pos_nonneg; lia).
+      split; [nia|]. rewrite Z.pow_add_r in W1 by lia. nia. }
+  intros path ps H.
+  assert (Hf : Forall (fun p => 0 <= snd p /\ 0 <= fst p < 2 ^ snd p) ps).
+  { revert ps H. induction path as [|a tl IH]; intros ps H; [inversion H; constructor|].
+    destruct tl as [|b tl']; [inversion H; constructor|]. cbn [ports_along] in H.
+    destruct (find_crt c a) as [r|]; [|discriminate]. destruct (out_index r (a, b)) as [k|] eqn:Ek; [|discriminate].
+    inv_bind H. inversion H; subst. constructor; [|apply IH; exact E]. cbn [fst snd].
+    unfold out_index in Ek. pose proof (slot_index_lt _ _ _ Ek).
+    pose proof (clog2_spec (Z.of_nat (length (cr_out r))) ltac:(lia)). pose proof (clog2_nonneg (Z.of_nat (length (cr_out r)))). lia. }
+  destruct (G ps 0 ltac:(lia) Hf) as (W0 & W1). rewrite Z.pow_0_r in W1. lia.
+Qed.
+
+(* the route gen_route emits for (s, t) steers, from the first router, along exactly the oracle's path,
+   consuming every bit, and fits the bits of its hops -- for ANY oracle *)
+Theorem gen_route_follows sp c s t id ps :
+  gen_route sp c s t = Ok (id, Some ps) ->
+  exists first inner, sp (c_graph c) (cn_name s) (cn_name t) = Some (first :: inner) /\
+    (inner <> [] -> src_walk (length ps) c (word_value ps) (hd "" inner) = (inner, 0)) /\
+    0 <= word_value ps < 2 ^ route_bits_of (id, Some ps).
+Proof.
+  unfold gen_route. intros H. inv_bind H.
+  destruct (str_eqb (cn_name s) (cn_name t) || only_mgr s && only_mgr t || only_sbr s && only_sbr t); [inversion H|].
+  destruct (sp (c_graph c) (cn_name s) (cn_name t)) as [[|first inner]|] eqn:Esp; try discriminate.
+  inv_bind H. inversion H; subst; clear H. exists first, inner. split; [reflexivity|]. split.
+  - intros Hne. apply word_follows_path; assumption.
+  - unfold route_bits_of. cbn [snd]. eapply word_value_bound; eauto.
+Qed.
+
+(* and the emitted route type is wide enough for every emitted word *)
+Theorem route_bits_cover sp c ri :
+  d_algo (c_desc c) = SRC -> gen_routing_info sp c = Ok ri ->
+  forall e r, In e (ri_routes ri) -> In r (snd e) -> route_bits_of r <= ri_route_bits ri.
+Proof.
+  intros Ha Hr e r He Hin. unfold gen_routing_info in Hr.
+  destruct (Z.of_nat (length (c_nis c)) =? 0); [discriminate|]. inv_bind Hr. inversion Hr; subst; cbn [ri_routes ri_route_bits] in *.
+  apply fold_max_ge. apply in_flat_map. exists e. split; [exact He|]. apply in_map. exact Hin.
+Qed.
